@@ -1799,4 +1799,7 @@ def obligations(tier):
     return obs
 
 
+BOUNDS["truth-only runs"] = "truth-only configurations also with idle estimate agents present (a built scenario keeps them): no estimate rows may be written"
+
+
 obligations("thorough")  # fills REPLAYS for every obligation name (quick is a subset), so that --replay works without listing obligations first
